@@ -1,5 +1,504 @@
 package main
 
-func runDTLCP(cf config, ed edit) outcome {
-	return outcome{c: side{status: "failed(todo)"}, s: side{status: "failed(todo)"}}
+// A man-in-the-middle DATAGRAM network between two real DTLCP endpoints, in virtual time.
+//
+// Every datagram an endpoint writes is parsed into records (13-byte header) and handed to
+// the edit.  Time is virtual so that runs are deterministic and fast: read deadlines and
+// the retransmission timers of the stack (Config.NewTimer) are registered on one virtual
+// clock which only advances when every endpoint is blocked in ReadFrom on an empty queue
+// (or has returned from Handshake); it then jumps to the earliest armed read deadline.
+// When the clock passes `capV` the handshake is declared stalled and both transports close.
+
+import (
+	"net"
+	"os"
+	"sync"
+	"time"
+
+	"gitee.com/Trisia/gotlcp/dtlcp"
+	"gitee.com/Trisia/gotlcp/tlcp"
+	"verifharness/internal/hx"
+	"verifharness/internal/pair"
+	"verifharness/internal/pki"
+)
+
+const capV = 3 * time.Second
+
+type vtimer struct {
+	due   time.Duration
+	ch    chan time.Time
+	fired bool
+	dead  bool
 }
+
+type dnet struct {
+	mu   sync.Mutex
+	cond *sync.Cond
+
+	q        [2][][]byte // datagrams waiting to be read by endpoint i
+	blocked  [2]bool
+	done     [2]bool
+	closed   [2]bool
+	deadline [2]time.Duration // virtual due time of the read deadline, <0: none
+	now      time.Duration
+	timers   []*vtimer
+	black    bool // truncation happened: nothing is delivered any more
+
+	seen    [2][]recInfo // honest records per direction, as written (retransmissions included)
+	ed      edit
+	held    []byte
+	applied bool
+	stalled bool
+	orig    byte
+	target  []byte
+	hdrLen  int
+	retrans [2]int // datagrams written per direction
+}
+
+func newDNet(ed edit) *dnet {
+	n := &dnet{ed: ed, hdrLen: 13}
+	n.cond = sync.NewCond(&n.mu)
+	n.deadline[0], n.deadline[1] = -1, -1
+	return n
+}
+
+// asMnet exposes the recorded records through the helpers written for the stream network.
+func (n *dnet) asMnet() *mnet {
+	m := &mnet{ed: n.ed, hdrLen: 13}
+	m.cond = sync.NewCond(&m.mu)
+	m.seen = n.seen
+	m.applied, m.orig, m.target, m.stalled = n.applied, n.orig, n.target, n.stalled
+	return m
+}
+
+type dend struct {
+	n   *dnet
+	who int
+}
+
+var addrC = &net.UDPAddr{IP: net.IPv4(127, 0, 0, 1), Port: 10000}
+var addrS = &net.UDPAddr{IP: net.IPv4(127, 0, 0, 1), Port: 20000}
+
+func (e *dend) LocalAddr() net.Addr {
+	if e.who == 0 {
+		return addrC
+	}
+	return addrS
+}
+func (e *dend) peerAddr() net.Addr {
+	if e.who == 0 {
+		return addrS
+	}
+	return addrC
+}
+func (e *dend) SetDeadline(t time.Time) error      { return e.SetReadDeadline(t) }
+func (e *dend) SetWriteDeadline(time.Time) error   { return nil }
+func (e *dend) SetReadDeadline(t time.Time) error {
+	n := e.n
+	n.mu.Lock()
+	if t.IsZero() {
+		n.deadline[e.who] = -1
+	} else {
+		d := time.Until(t).Round(time.Millisecond)
+		if d < 0 {
+			d = 0
+		}
+		n.deadline[e.who] = n.now + d
+	}
+	n.cond.Broadcast()
+	n.mu.Unlock()
+	return nil
+}
+
+func (e *dend) Close() error {
+	n := e.n
+	n.mu.Lock()
+	n.closed[e.who] = true
+	n.cond.Broadcast()
+	n.mu.Unlock()
+	return nil
+}
+
+// newTimer is Config.NewTimer: a timer on the virtual clock.
+func (n *dnet) newTimer(d time.Duration) *dtlcp.TimerHandle {
+	n.mu.Lock()
+	defer n.mu.Unlock()
+	t := &vtimer{due: n.now + d.Round(time.Millisecond), ch: make(chan time.Time, 1)}
+	n.timers = append(n.timers, t)
+	return &dtlcp.TimerHandle{
+		C: t.ch,
+		Stop: func() bool {
+			n.mu.Lock()
+			defer n.mu.Unlock()
+			was := !t.fired && !t.dead
+			t.dead = true
+			return was
+		},
+		Reset: func(d time.Duration) bool {
+			n.mu.Lock()
+			defer n.mu.Unlock()
+			was := !t.fired && !t.dead
+			t.dead, t.fired = false, false
+			t.due = n.now + d.Round(time.Millisecond)
+			return was
+		},
+	}
+}
+
+func (n *dnet) finished(who int) {
+	n.mu.Lock()
+	n.done[who] = true
+	n.advance()
+	n.cond.Broadcast()
+	n.mu.Unlock()
+}
+
+// advance: with n.mu held. When nobody can make progress, jump the clock to the earliest
+// read deadline of a blocked endpoint (firing the timers passed on the way); when there is
+// none, or the clock is past the cap, close everything.
+func (n *dnet) advance() {
+	for i := 0; i < 2; i++ {
+		if n.done[i] || n.closed[i] {
+			continue
+		}
+		if !n.blocked[i] || len(n.q[i]) > 0 {
+			return
+		}
+		if n.deadline[i] >= 0 && n.deadline[i] <= n.now {
+			return // its deadline is already due: it will wake up by itself
+		}
+	}
+	next := time.Duration(-1)
+	for i := 0; i < 2; i++ {
+		if n.done[i] || n.closed[i] || n.deadline[i] < 0 {
+			continue
+		}
+		if next < 0 || n.deadline[i] < next {
+			next = n.deadline[i]
+		}
+	}
+	anyWaiting := false
+	for i := 0; i < 2; i++ {
+		if !n.done[i] && !n.closed[i] {
+			anyWaiting = true
+		}
+	}
+	if !anyWaiting {
+		return
+	}
+	if next < 0 || next > capV {
+		n.stalled = true
+		n.closed[0], n.closed[1] = true, true
+		n.cond.Broadcast()
+		return
+	}
+	n.now = next
+	for _, t := range n.timers {
+		if !t.dead && !t.fired && t.due <= n.now {
+			t.fired = true
+			select {
+			case t.ch <- time.Time{}:
+			default:
+			}
+		}
+	}
+	n.cond.Broadcast()
+}
+
+func (e *dend) ReadFrom(p []byte) (int, net.Addr, error) {
+	n := e.n
+	n.mu.Lock()
+	defer n.mu.Unlock()
+	for {
+		if n.closed[e.who] {
+			return 0, nil, net.ErrClosed
+		}
+		if len(n.q[e.who]) > 0 {
+			d := n.q[e.who][0]
+			n.q[e.who] = n.q[e.who][1:]
+			k := copy(p, d)
+			return k, e.peerAddr(), nil
+		}
+		if n.deadline[e.who] >= 0 && n.deadline[e.who] <= n.now {
+			n.deadline[e.who] = -1
+			return 0, nil, os.ErrDeadlineExceeded
+		}
+		n.blocked[e.who] = true
+		n.advance()
+		if n.closed[e.who] || len(n.q[e.who]) > 0 || (n.deadline[e.who] >= 0 && n.deadline[e.who] <= n.now) {
+			n.blocked[e.who] = false
+			continue
+		}
+		n.cond.Wait()
+		n.blocked[e.who] = false
+	}
+}
+
+func (e *dend) WriteTo(p []byte, _ net.Addr) (int, error) {
+	n := e.n
+	n.mu.Lock()
+	defer n.mu.Unlock()
+	if n.closed[e.who] {
+		return 0, net.ErrClosed
+	}
+	d := e.who
+	n.retrans[d]++
+	// split the datagram into records
+	var recs [][]byte
+	b := p
+	for len(b) >= n.hdrLen {
+		l := int(b[11])<<8 | int(b[12])
+		if len(b) < n.hdrLen+l {
+			break
+		}
+		recs = append(recs, append([]byte(nil), b[:n.hdrLen+l]...))
+		b = b[n.hdrLen+l:]
+	}
+	if len(b) > 0 {
+		recs = append(recs, append([]byte(nil), b...)) // trailing garbage travels as one piece
+	}
+	var out []byte
+	cut := false
+	for _, r := range recs {
+		idx := len(n.seen[d])
+		n.seen[d] = append(n.seen[d], recInfo{raw: r, dtls: true})
+		piece, stop := n.route(d, idx, r)
+		out = append(out, piece...)
+		if stop {
+			cut = true
+			break
+		}
+	}
+	if len(out) > 0 && !n.black && !n.closed[1-d] {
+		n.q[1-d] = append(n.q[1-d], out)
+	}
+	if cut {
+		n.black = true
+	}
+	n.cond.Broadcast()
+	return len(p), nil
+}
+
+func dInjected(kind string, seq int) []byte {
+	mk := func(typ byte, payload []byte) []byte {
+		h := []byte{typ, 0x01, 0x01, 0, 0, 0, 0, 0, 0, byte(seq >> 8), byte(seq), byte(len(payload) >> 8), byte(len(payload))}
+		return append(h, payload...)
+	}
+	switch kind {
+	case "alertw":
+		return mk(21, []byte{1, 90})
+	case "alertf":
+		return mk(21, []byte{2, 40})
+	case "hs0":
+		return mk(22, nil)
+	case "ccs":
+		return mk(20, []byte{1})
+	case "app":
+		return mk(23, []byte("hello"))
+	}
+	return nil
+}
+
+// route: what replaces honest record idx of direction d inside its datagram; stop = the
+// datagram is cut here and nothing is delivered afterwards (truncation).
+func (n *dnet) route(d, idx int, rec []byte) ([]byte, bool) {
+	ed := &n.ed
+	if ed.kind == "none" || ed.dir != d {
+		return rec, false
+	}
+	if ed.kind == "swap" && idx == ed.rec+1 && n.held != nil {
+		out := append(append([]byte(nil), rec...), n.held...)
+		n.held = nil
+		return out, false
+	}
+	if ed.kind == "inject" {
+		if idx == ed.rec-1 {
+			n.applied = true
+			n.target = append([]byte(nil), rec...)
+			return append(append([]byte(nil), rec...), dInjected(ed.inj, 40+ed.rec)...), false
+		}
+		return rec, false
+	}
+	if idx != ed.rec {
+		return rec, false
+	}
+	n.applied = true
+	n.target = append([]byte(nil), rec...)
+	switch ed.kind {
+	case "flip":
+		if ed.off < len(rec) {
+			n.orig = rec[ed.off]
+			cp := append([]byte(nil), rec...)
+			cp[ed.off] ^= ed.mask
+			return cp, false
+		}
+		n.applied = false
+		return rec, false
+	case "drop":
+		return nil, false
+	case "dup":
+		return append(append([]byte(nil), rec...), rec...), false
+	case "swap":
+		n.held = append([]byte(nil), rec...)
+		return nil, false
+	case "trunc":
+		k := ed.off
+		if k > len(rec) {
+			k = len(rec)
+		}
+		return rec[:k], true
+	}
+	return rec, false
+}
+
+func (n *dnet) start() {
+	if n.ed.kind == "inject" && n.ed.rec == 0 {
+		n.applied = true
+		n.q[1-n.ed.dir] = append(n.q[1-n.ed.dir], dInjected(n.ed.inj, 40))
+	}
+}
+
+var _ net.PacketConn = (*dend)(nil)
+
+func dtlcpConfigs(cf config, n *dnet) (*dtlcp.Config, *dtlcp.Config, *[]uint8, *[]uint8) {
+	s := pki.Std()
+	var calerts, salerts []uint8
+	var mu sync.Mutex
+	ccfg := &dtlcp.Config{RootCAs: s.Root.Pool, ServerName: "test.example", Time: pki.NowFn,
+		CipherSuites: []uint16{cf.suite}, NextProtos: []string{"h2", "verif/1"},
+		SessionCache:             dtlcp.NewLRUSessionCache(8),
+		InitialRetransmitTimeout: 100 * time.Millisecond, MaxRetransmitTimeout: 400 * time.Millisecond,
+		OnAlert: func(code uint8, _ *dtlcp.Conn) { mu.Lock(); calerts = append(calerts, code); mu.Unlock() }}
+	scfg := &dtlcp.Config{Certificates: []dtlcp.Certificate{pair.DCert(s.SrvSig), pair.DCert(s.SrvEnc)}, Time: pki.NowFn,
+		NextProtos:               []string{"verif/1"},
+		InitialRetransmitTimeout: 100 * time.Millisecond, MaxRetransmitTimeout: 400 * time.Millisecond,
+		CookieSecret: []byte("c03-cookie-secret-0123456789abcd"),
+		OnAlert:      func(code uint8, _ *dtlcp.Conn) { mu.Lock(); salerts = append(salerts, code); mu.Unlock() }}
+	if cf.auth || cf.ecdhe() {
+		ccfg.Certificates = []dtlcp.Certificate{pair.DCert(s.CliSig), pair.DCert(s.CliEnc)}
+	}
+	if cf.auth {
+		scfg.ClientAuth = dtlcp.RequireAndVerifyClientCert
+		scfg.ClientCAs = s.Root.Pool
+	}
+	if cf.ecdhe() {
+		scfg.ClientCAs = s.Root.Pool
+	}
+	if cf.resume {
+		scfg.SessionCache = dtlcp.NewLRUSessionCache(8)
+	}
+	return ccfg, scfg, &calerts, &salerts
+}
+
+func dclassify(err error, sent []uint8, stalled bool) string {
+	if err == nil {
+		return "completed"
+	}
+	cl := classify(err, sent)
+	if cl == "failed(closed)" || cl == "failed(other)" {
+		if stalled && len(sent) == 0 {
+			return "failed(stall)"
+		}
+	}
+	return cl
+}
+
+func runDTLCPOnce(n *dnet, ccfg, scfg *dtlcp.Config) (c, s *dtlcp.Conn, cerr, serr error, cp, sp string) {
+	ccfg.NewTimer, scfg.NewTimer = n.newTimer, n.newTimer
+	ce, se := &dend{n: n, who: 0}, &dend{n: n, who: 1}
+	c, s = dtlcp.Client(ce, addrS, ccfg), dtlcp.Server(se, addrC, scfg)
+	var wg sync.WaitGroup
+	wg.Add(2)
+	go func() {
+		defer wg.Done()
+		cp = hx.Guard(func() { cerr = c.Handshake() })
+		n.finished(0)
+	}()
+	go func() {
+		defer wg.Done()
+		sp = hx.Guard(func() { serr = s.Handshake() })
+		n.finished(1)
+	}()
+	donech := make(chan struct{})
+	go func() { wg.Wait(); close(donech) }()
+	select {
+	case <-donech:
+	case <-time.After(20 * time.Second):
+		n.mu.Lock()
+		n.closed[0], n.closed[1] = true, true
+		n.stalled = true
+		n.cond.Broadcast()
+		n.mu.Unlock()
+		<-donech
+	}
+	return
+}
+
+func runDTLCP(cf config, ed edit) outcome {
+	n0 := newDNet(edit{kind: "none"})
+	ccfg, scfg, calerts, salerts := dtlcpConfigs(cf, n0)
+	if cf.resume {
+		_, _, e1, e2, _, _ := runDTLCPOnce(n0, ccfg, scfg)
+		if e1 != nil || e2 != nil {
+			return outcome{c: side{status: "failed(prime)"}, s: side{status: "failed(prime)"}}
+		}
+		*calerts, *salerts = nil, nil
+	}
+	n := newDNet(ed)
+	n.start()
+	c, s, cerr, serr, cp, sp := runDTLCPOnce(n, ccfg, scfg)
+	var out outcome
+	out.c.panic, out.s.panic = cp, sp
+	n.mu.Lock()
+	out.stalled = n.stalled
+	out.applied = n.applied
+	n.mu.Unlock()
+	switch {
+	case cp != "":
+		out.c.status = "panic"
+	default:
+		out.c.status = dclassify(cerr, *calerts, out.stalled)
+	}
+	switch {
+	case sp != "":
+		out.s.status = "panic"
+	default:
+		out.s.status = dclassify(serr, *salerts, out.stalled)
+	}
+	m := n.asMnet()
+	out.net = m
+	sd := pki.Std()
+	srvCerts := certsHash([][]byte{sd.SrvSig.DER, sd.SrvEnc.DER})
+	cliCerts := "-"
+	if cf.auth || cf.ecdhe() {
+		cliCerts = certsHash([][]byte{sd.CliSig.DER, sd.CliEnc.DER})
+	}
+	if out.c.status == "completed" {
+		st := c.ConnectionState()
+		cf1, sf1 := c.VerifTranscriptFinished()
+		sid := "-"
+		if sess, ok := ccfg.SessionCache.Get(addrS.String()); ok && sess != nil {
+			id, _, _, _, _ := dtlcp.VerifSessionInfo(sess)
+			sid = h8(id)
+		}
+		var ders [][]byte
+		for _, pc := range st.PeerCertificates {
+			ders = append(ders, pc.Raw)
+		}
+		out.c.view = viewString(st.Version, st.CipherSuite, sid, st.NegotiatedProtocol, st.DidResume, finStr(cf1), finStr(sf1), certsHash(ders), cliCerts)
+	}
+	if out.s.status == "completed" {
+		st := s.ConnectionState()
+		cf1, sf1 := s.VerifTranscriptFinished()
+		var ders [][]byte
+		for _, pc := range st.PeerCertificates {
+			ders = append(ders, pc.Raw)
+		}
+		out.s.view = viewString(st.Version, st.CipherSuite, serverHelloSid(m, true), st.NegotiatedProtocol, st.DidResume, finStr(cf1), finStr(sf1), certsHash(ders), srvCerts)
+	}
+	out.desc = describe(m, cf, true)
+	out.lay = layout(m, true)
+	return out
+}
+
+var _ = tlcp.VersionTLCP
